@@ -109,6 +109,33 @@ func (p *Prog) verifyFunc(fn *ssa.Function, ct *Contract) (res *FuncResult) {
 		p.verifyInitGlobals(fn, fr, st)
 		return res
 	}
+	if ct.NoMapRange {
+		// syntactic obligation: no iteration over a Go map (whose order is random)
+		var found []string
+		var scan func(f *ssa.Function)
+		scan = func(f *ssa.Function) {
+			for _, b := range f.Blocks {
+				for _, in := range b.Instrs {
+					if rg, ok := in.(*ssa.Range); ok {
+						if _, isMap := rg.X.Type().Underlying().(*types.Map); isMap {
+							found = append(found, p.pos(rg.Pos()))
+						}
+					}
+				}
+			}
+			for _, a := range f.AnonFuncs {
+				scan(a)
+			}
+		}
+		scan(fn)
+		stt := "unsat"
+		if len(found) > 0 {
+			stt = "sat"
+		}
+		vc.obls = append(vc.obls, &Obligation{Name: key + "/no-map-range", Kind: "scan", Goal: tTrue, Func: key, Pos: p.pos(fn.Pos()),
+			Clause: "the function does not range over a map (iteration order is random)",
+			Result: &SolverResult{Status: stt, Solver: "syntactic-scan", Output: "map range at " + strings.Join(found, ", ")}})
+	}
 	exits := fr.run(st)
 	res.Returns = len(exits)
 	// order return sites by source position
